@@ -468,13 +468,16 @@ where
                     }
                 }
                 if let Ok(set) = self.input.streams().as_mut()
-                    && let Some((incoming, s)) = set.remove(&sid)
+                    && let Some((incoming, s)) = set.get(&sid)
                 {
+                    // an illegal RESET_STREAM (wrong final size) is a connection error: the stream stays in
+                    // the table so that the connection error that follows still reaches (and wakes) its reader
                     sync_fresh_data = incoming.recv_reset(reset)?;
                     s.shutdown_receive();
                     if s.is_terminated() {
                         self.stream_ids.remote.on_end_of_stream(reset.stream_id());
                     }
+                    set.remove(&sid);
                 }
             }
             StreamCtlFrame::StopSending(stop_sending) => {
